@@ -147,7 +147,7 @@ theorem VRel.trans {x y z : Flags × VSt PJ X V A VX VV VA} (a : VRel x y) (b : 
     exact ⟨h1.1.trans h2.1, h1.2.1.trans h2.2.1, h1.2.2.1.trans h2.2.2.1, h1.2.2.2.trans h2.2.2.2⟩⟩
 
 theorem vStepOps_initF (c : Config) (f : Flags) : vStepOps c (initF f) = vStepOps c f := by
-  unfold vStepOps vPart1Ops; rw [initF_idem]
+  unfold vStepOps vStepCore vPart1Ops; rw [initF_idem]
 
 theorem vSyncOps_initF (c : Config) (f : Flags) : vSyncOps c (initF f) = vSyncOps c f := by
   unfold vSyncOps; rw [initF_idem]
@@ -162,7 +162,7 @@ theorem vstep_determined (c : Config) (hk : c.keep = true) (hs : c.safe = false)
   obtain ⟨isSync, recalc, allocated⟩ := g
   simp only at hg; subst hg
   cases isSync <;> cases recalc <;> cases hv : c.vfix <;> cases hp : c.p1fix <;>
-    simp [vStepOps, vPart1Ops, vPart2Ops, vSyncOps, initF, hk, hs, hv, hp, vTransferList, vTransfer]
+    simp [vStepOps, vStepCore, vPart1Ops, vPart2Ops, vSyncOps, initF, hk, hs, hv, hp, vTransferList, vTransfer]
 
 theorem vsync_keep (S : VSem T PJ X V A VX VV VA) (c : Config) (hk : c.keep = true) (f : Flags)
     (s : VSt PJ X V A VX VV VA) :
@@ -299,7 +299,7 @@ theorem vinv_apply {S : VSem T PJ X V A VX VV VA} (K : VClock S) (c : Config) (h
   | step =>
     cases allocated <;> cases isSync <;> cases recalc <;> cases hk : c.keep <;> cases hs : c.safe <;>
       cases hp : c.p1fix <;>
-      simp_all [vApply, vOpOps, vStepOps, vPart1Ops, vPart2Ops, vSyncOps, initF, vExec, vDenote, VInv,
+      simp_all [vApply, vOpOps, vStepOps, vStepCore, vPart1Ops, vPart2Ops, vSyncOps, initF, vExec, vDenote, VInv,
         Op.isStep, K.kepler, K.com, K.jump, K.inter, K.vcom, K.vposOf, K.fromI, K.rescale, K.ev_half] <;>
       omega
 
